@@ -62,3 +62,25 @@ package verifspec
 
 // (GoLinknameSet.Add is not under contract: its quantified postcondition over maps keyed by structs did not discharge
 // reliably -- unknown on 2 of 12 paths -- and is therefore not claimed.)
+
+//@ extern compiler/linkname.lookupTopNode
+//@   param file name
+//@   assigns nothing
+//@ extern compiler/linkname.isMitigatedVarLinkname
+//@   param sym
+//@   assigns nothing
+//@ extern compiler/linkname.isMitigatedInsertLinkname
+//@   param sym
+//@   assigns nothing
+
+// ParseGoLinknames, the per-comment closure (`processComment`): a directive is accepted -- appended to `directives` with a nil
+// error -- only in a file that imports unsafe, for a local symbol that exists, is a function and has no body; at most
+// one directive is appended per comment and none when an error is reported.  Unsupported uses are therefore rejected.
+//@ func compiler/linkname.ParseGoLinknames#lit1
+//@ property C10
+//@   requires comment != nil && file != nil
+//@   ensures len(directives) == len(old(directives)) || len(directives) == len(old(directives)) + 1
+//@   ensures result != nil ==> len(directives) == len(old(directives))
+//@   ensures len(directives) == len(old(directives)) + 1 ==> result == nil && isUnsafe
+//@   ensures len(directives) == len(old(directives)) + 1 ==> (link != nil && node != nil && isFunc && decl.Body == nil)
+//@   ensures len(directives) == len(old(directives)) + 1 ==> directives[len(directives) - 1].Reference.Name == link.Reference.Name && directives[len(directives) - 1].Reference.PkgPath == pkgPath
